@@ -232,6 +232,7 @@ func c17Rules(p *core.Prog, r *core.Run) {
 			r.Check("C17.KEEP", "store:"+p.FuncName(st.Parent()), false, p.InstrPos(st), "unexpected store to EncryptedClientHelloConfigList")
 		}
 	}
+	c17AbsentStaysAbsent(p, r)
 	r.Check("C17.KEEP", "Dial:needECH", needECHok, p.Pos(m.dial.Pos()), "needECH is 'the (cloned) caller config has no ECH list'")
 	r.Floor("C17.KEEP", 4)
 
@@ -421,6 +422,62 @@ func c17Rules(p *core.Prog, r *core.Run) {
 			}
 		}
 	}
+	// ... and, anywhere else in the package, a tls.Config that is written to is
+	// one made there (a literal or a Clone), never one somebody handed over
+	// (Transport.TLSConfig, a parameter, a field)
+	inAll := map[*ssa.Function]bool{}
+	for _, f := range all {
+		inAll[f] = true
+	}
+	var fresh func(e *core.Expr, depth int) bool
+	fresh = func(e *core.Expr, depth int) bool {
+		if e == nil || depth > 6 {
+			return false
+		}
+		switch {
+		case e.Op == "new":
+			return true
+		case e.Op == "call" && strings.HasSuffix(e.Name, "tls.Config).Clone"):
+			return true
+		case e.Op == "phi" || e.Op == "cell":
+			for _, a := range e.Args {
+				if !fresh(a, depth+1) {
+					return false
+				}
+			}
+			return len(e.Args) > 0
+		}
+		return false
+	}
+	for _, fn := range p.PkgFuncs(Ech) {
+		if inAll[fn] {
+			continue
+		}
+		for _, b := range fn.Blocks {
+			for _, in := range b.Instrs {
+				st, ok := in.(*ssa.Store)
+				if !ok {
+					continue
+				}
+				fa, ok := st.Addr.(*ssa.FieldAddr)
+				if !ok {
+					continue
+				}
+				pt, ok := fa.X.Type().Underlying().(*types.Pointer)
+				if !ok {
+					continue
+				}
+				if n, ok := pt.Elem().(*types.Named); !ok || n.Obj().Pkg() == nil || n.Obj().Pkg().Path() != "crypto/tls" || n.Obj().Name() != "Config" {
+					continue
+				}
+				base := p.X(fa.X)
+				if !fresh(base, 0) {
+					nBad++
+					r.Check("C17.NOMUT", "store-through-shared-config:"+p.X(fa).Name+"@"+p.FuncName(fn), false, p.InstrPos(st), "field %s is written through a *tls.Config that was not made on the spot (it may be the caller's): %s", p.X(fa).Name, short(base))
+				}
+			}
+		}
+	}
 	r.Check("C17.NOMUT", "census", nBad == 0, p.Pos(m.dial.Pos()), "no store reaches the caller's *tls.Config (%d found)", nBad)
 }
 
@@ -489,4 +546,66 @@ func c17Retry(p *core.Prog, r *core.Run, m *dialModel) {
 			}
 		}
 	}
+}
+
+// c17AbsentStaysAbsent: "this record has no ECH configuration" is told apart
+// from "it has one" by the ECH field being nil (Dial and the worker test it
+// against nil). Whatever the package writes into the ECH field of an HTTPS
+// record, on its way from the resolver to Dial, must therefore keep a nil list
+// nil: the field itself, a Clone of it, nil, or an append onto a nil slice.
+func c17AbsentStaysAbsent(p *core.Prog, r *core.Run) {
+	echF := field(p, DNS, "HTTPS", "ECH")
+	if echF == nil {
+		return
+	}
+	var keeps func(e *core.Expr, depth int) bool
+	keeps = func(e *core.Expr, depth int) bool {
+		if e == nil || depth > 8 {
+			return false
+		}
+		switch {
+		case e.Op == "const" && e.Name == "nil":
+			return true
+		case e.Op == "field" && e.Obj == echF:
+			return true
+		case e.Op == "phi" || e.Op == "cell":
+			for _, a := range e.Args {
+				if !keeps(a, depth+1) {
+					return false
+				}
+			}
+			return len(e.Args) > 0
+		case e.Op == "call" && (e.Name == "slices.Clone" || e.Name == "bytes.Clone") && len(e.Args) == 1:
+			return keeps(e.Args[0], depth+1)
+		case e.Op == "call" && e.Name == "append" && len(e.Args) >= 1 && e.Args[0].Op == "const" && e.Args[0].Name == "nil":
+			return true
+		case e.Op == "conv" || e.Op == "slice" && len(e.Args) > 0:
+			return keeps(e.Args[0], depth+1)
+		}
+		return false
+	}
+	nSt, nRead := 0, 0
+	for _, fn := range p.PkgFuncs(Ech) {
+		for _, b := range fn.Blocks {
+			for _, in := range b.Instrs {
+				switch x := in.(type) {
+				case *ssa.Store:
+					if fa, ok := x.Addr.(*ssa.FieldAddr); ok && fieldVar(fa) == echF {
+						nSt++
+						v := p.X(x.Val)
+						r.Check("C17.KEEP", fmt.Sprintf("record-list:stays-nil#%d", nSt), keeps(v, 0), p.InstrPos(x), "what is written into an HTTPS record's ECH field keeps an absent list absent (nil): %s", short(v))
+					}
+				case *ssa.FieldAddr:
+					if fieldVar(x) == echF {
+						nRead++
+					}
+				case *ssa.Field:
+					if st, ok := x.X.Type().Underlying().(*types.Struct); ok && x.Field < st.NumFields() && st.Field(x.Field) == echF {
+						nRead++
+					}
+				}
+			}
+		}
+	}
+	r.Check("C17.KEEP", "record-list:uses", nRead >= 1, "-", "uses of an HTTPS record's ECH field examined in the package: %d (%d stores)", nRead, nSt)
 }
